@@ -124,5 +124,6 @@ func VerifHidden(b policyapi.Backend) string {
 	if p.defaultBalloonDef != nil {
 		dd = p.defaultBalloonDef.Name
 	}
-	return fmt.Sprintf("options=%s ifree=%s loads=%v reservedDef=%s defaultDef=%s allowed=%s reserved=%s", utils.DumpJSON(p.bpoptions), p.ifreeCpus, lv, rd, dd, p.allowed, p.reserved)
+	// (the set of idle CPUs is part of the assignments snapshot, not of this: it changes whenever balloons move)
+	return fmt.Sprintf("options=%s loads=%v reservedDef=%s defaultDef=%s allowed=%s reserved=%s", utils.DumpJSON(p.bpoptions), lv, rd, dd, p.allowed, p.reserved)
 }
